@@ -8,6 +8,7 @@ import (
 	"math/rand"
 	"os"
 	"path/filepath"
+	"runtime/debug"
 	"sort"
 	"sync"
 	"time"
@@ -124,7 +125,18 @@ func (r *walRun) put(n int) {
 		r.w.CurrentPut(0, 0)
 		r.w.MarkPutStarted()
 	}
-	err := r.fq.Queue().Put(p)
+	err := func() (err error) {
+		// a store into an unmapped page is a memory fault: an observation (Error event), then the history ends
+		old := debug.SetPanicOnFault(true)
+		defer debug.SetPanicOnFault(old)
+		defer func() {
+			if p := recover(); p != nil {
+				r.rec.Emit("Error", trace.F{"op": "Put", "err": fmt.Sprintf("fault inside Put: %v", p)})
+				panic(walAbort{})
+			}
+		}()
+		return r.fq.Queue().Put(p)
+	}()
 	r.w.ClearPut()
 	if err != nil && errors.Is(err, errInjectedAcquire) {
 		// the roll-over could not get its new page: the call failed, it consumed no sequence
@@ -288,7 +300,36 @@ func (r *walRun) bigHistory() {
 			r.proj(nil)
 		}
 	}
+	// the end is scripted: everything is consumed, all but the last message acknowledged (the acknowledged position
+	// lies on a LATER data page by now), Sync + GC remove whole data pages; the message above the acknowledged
+	// position and new appends must still be readable (their index entries live on index page 0)
+	g, err = r.fq.GetOrCreateConsumerGroup("g1")
+	if err != nil {
+		return
+	}
+	r.groups["g1"] = g
+	for g.Pending() > 0 {
+		r.rec.Emit("Op", trace.F{"t": "main", "op": "Consume", "g": "g1"})
+		s := g.Consume()
+		r.proj(trace.F{"t": "main", "res": s})
+	}
+	if s := g.ConsumedSeq() - 1; s >= 0 {
+		r.rec.Emit("Op", trace.F{"t": "main", "op": "Ack", "g": "g1", "s": s})
+		g.Ack(s)
+		r.proj(nil)
+	}
+	r.rec.Emit("Op", trace.F{"t": "main", "op": "Sync"})
+	r.fq.Sync()
+	r.proj(nil)
+	r.rec.Emit("Op", trace.F{"t": "main", "op": "GC"})
+	r.fq.Queue().GC()
+	r.proj(nil)
+	r.put(1 + rng.Intn(100))
+	r.put(1 + rng.Intn(100))
 }
+
+// walAbort ends a history after the code under test faulted inside a call
+type walAbort struct{}
 
 var errInjectedAcquire = errors.New("injected: cannot acquire the next data page")
 
@@ -445,18 +486,34 @@ func walMain(args []string) int {
 		if big {
 			n = 14
 		}
-		if big {
-			run.bigHistory()
-		} else if boundary {
-			run.boundaryHistory()
-		} else if rollfail {
-			run.rollFailHistory()
-		} else {
-			for i := 0; i < n; i++ {
-				run.randomOp(false)
+		aborted := false
+		func() {
+			defer func() {
+				if p := recover(); p != nil {
+					if _, ok := p.(walAbort); !ok {
+						panic(p)
+					}
+					aborted = true
+				}
+			}()
+			if big {
+				run.bigHistory()
+			} else if boundary {
+				run.boundaryHistory()
+			} else if rollfail {
+				run.rollFailHistory()
+			} else {
+				for i := 0; i < n; i++ {
+					run.randomOp(false)
+				}
 			}
+		}()
+		if aborted {
+			// the code under test faulted inside a call (recorded as an Error event): its locks may still be held
+			run.points = nil
+		} else {
+			run.fq.Close()
 		}
-		run.fq.Close()
 		rec.Tap = nil
 		restore()
 		w.OnStore = nil
